@@ -484,6 +484,29 @@ def decl_matches(f, suffixes):
     return False
 
 
+class PromotedFn:
+    """a promoted constant body presented with the interface FnAnalysis needs"""
+
+    def __init__(self, fn, idx, body):
+        self.key = '%s::promoted[%d]' % (fn.key, idx)
+        self.path = self.key
+        self.name = 'promoted'
+        self.crate = fn.crate
+        self.argc = body['argc']
+        self.locals = body['locals']
+        self.blocks = body['blocks']
+        self.dbg = body.get('dbg', [])
+        self.promoted = []
+        self.inputs = []
+        self.span = fn.span
+
+    def local_ty(self, l):
+        return self.locals[l]['ty']
+
+    def short(self):
+        return self.key
+
+
 class FnAnalysis:
     """Per-function analysis: CFG, def sites, reaching definitions, origins."""
 
@@ -643,6 +666,9 @@ class FnAnalysis:
         if 'fn' in k:
             return ('fn', callee_key(k['fn']))
         if 'promoted' in k:
+            v = self.promoted_value(k['promoted'])
+            if v is not None:
+                return v
             return ('promoted', self.fn.key, k['promoted'])
         if 'scalar' in k:
             if 'def' in k:
@@ -653,6 +679,30 @@ class FnAnalysis:
         if 'static' in k:
             return ('static', k['static'])
         return ('ktext', k['ty'], k.get('text', ''))
+
+    def promoted_value(self, idx):
+        """value of a promoted constant: ('refv', v) when it is a reference to a simple value"""
+        key = ('prom', idx)
+        if key in self._origin_cache:
+            return self._origin_cache[key]
+        res = None
+        try:
+            body = self.fn.promoted[idx]
+            pfn = PromotedFn(self.fn, idx, body)
+            pa = FnAnalysis(self.prog, pfn)
+            rets = pa.defs().get(0, [])
+            if len(rets) == 1:
+                v = pa.def_value(0, rets[0][0], rets[0][1])
+                if v[0] == 'ref' and v[1][0] == 'local':
+                    inner = pa.local_value(v[1][1], (rets[0][0], rets[0][1]))
+                    if not any(x and x[0] in ('load', 'local', 'param', 'rec', 'phi') for x in walk(inner)):
+                        res = ('refv', inner)
+                elif not any(x and x[0] in ('load', 'local', 'param', 'rec', 'phi') for x in walk(v)):
+                    res = v
+        except Exception:
+            res = None
+        self._origin_cache[key] = res
+        return res
 
     def read_place(self, pe, at):
         """value obtained by reading place expression pe at point at"""
@@ -777,6 +827,10 @@ class FnAnalysis:
                 return ('ref', ('idx', args[0][1], args[1]))
         pure = decl_matches(f, PURE_FUNCS_SUFFIX)
         name = callee_str(f)
+        # shared references to plain temporaries: pass the referent's value
+        am = self.addr_taken_mut()
+        args = tuple(('refv', self.local_value(a[1][1], at))
+                     if (a[0] == 'ref' and a[1][0] == 'local' and a[1][1] not in am) else a for a in args)
         return ('call', name, args, None if pure else at, decl)
 
 
@@ -847,10 +901,36 @@ def project(v, c):
     return None
 
 
+def _named_ancestor(base):
+    """nearest enclosing named field below a tuple-field projection"""
+    while isinstance(base, tuple) and base and base[0] in ('idx', 'var', 'view', 'deref', 'load', 'pick', 'proj'):
+        base = base[1]
+    if isinstance(base, tuple) and base and base[0] == 'fld':
+        return fld_key(base)
+    return None
+
+
+def fld_key(x):
+    """kill/identity key of a ('fld', base, adt, name) node; tuple fields are qualified by
+    their nearest named ancestor field so that `.0` of different things do not collide"""
+    if x[2] == '' or x[2].startswith('('):
+        anc = _named_ancestor(x[1])
+        if anc is not None:
+            return (anc[0], anc[1] + '.' + x[3])
+        return ('', x[3])
+    return (x[2], x[3])
+
+
 def path_fields(pe):
-    """list of (adt, field) pairs on a place expression, outermost last"""
-    _, chain = split_path(pe)
-    return [(c[1], c[2]) for c in chain if c[0] == 'fld']
+    """list of (adt, field) keys on a place expression, outermost last"""
+    out = []
+    e = pe
+    while isinstance(e, tuple) and e and e[0] in ('fld', 'var', 'idx', 'view', 'proj', 'deref', 'load', 'pick'):
+        if e[0] == 'fld':
+            out.append(fld_key(e))
+        e = e[1]
+    out.reverse()
+    return out
 
 
 def strip_sites(e):
@@ -879,11 +959,20 @@ def loads_in(e):
 
 
 def fields_read(e):
-    """all (adt, field) pairs occurring in any place path inside expression e"""
+    """all (adt, field) keys occurring in any place path inside expression e"""
     s = set()
     for x in walk(e):
         if x and x[0] == 'fld':
-            s.add((x[2], x[3]))
+            s.add(fld_key(x))
+    return s
+
+
+def roots_read(e):
+    """parameter indices through which expression e reads memory"""
+    s = set()
+    for x in walk(e):
+        if x and x[0] == 'deref' and isinstance(x[1], tuple) and x[1] and x[1][0] == 'param':
+            s.add(x[1][1])
     return s
 
 
@@ -907,6 +996,8 @@ def show(e, depth=0):
         return '*' + show(e[1], d)
     if k == 'ref':
         return '&' + show(e[1], d)
+    if k == 'refv':
+        return show(e[1], d)
     if k == 'fld':
         return '%s.%s' % (show(e[1], d), e[3])
     if k == 'var':
